@@ -46,6 +46,7 @@ M = [
  ('losing the connection fails every outstanding call even when an errback issues new ones', 'C09', "three calls outstanding, the errback of the first re-issues a call on the same connection, the connection is lost: RuntimeError (dictionary changed size during iteration) out of connectionLost, the other two calls never fail, proxy disconnect callbacks never run"),
  ('values of a bus address are unescaped', 'C09', "address 'unix:path=/t%20b%2dx' (escaped as the specification prescribes): the client dials a socket literally named '/t%20b%2dx' instead of '/t b-x'; the same for abstract="),
  ('a unix address naming no socket is skipped', 'C09', "address list 'unix:runtime=y;unix:path=/t/b': UnboundLocalError out of getDBusEndpoints, the second, reachable address is never tried"),
+ ('every disconnect callback runs even when one of them cancels itself', 'C09', "three disconnect callbacks registered, the first cancels its own registration while it runs, the connection is lost: the second callback never runs (connection-level and proxy-level lists alike)"),
  ('RequestName queues a requester', 'C13', 'request without the replace flag refused instead of queued; a waiting client requesting again queued twice'),
  ('waiting for a name leaves the queue', 'C13', 'ReleaseName by a queued client answered NOT_OWNER and left it queued; a queued client that disconnected later became a dead owner'),
 ]
